@@ -9,6 +9,7 @@ import (
 	"sync/atomic"
 
 	"github.com/goplus/gogen/verif/internal/drive"
+	"github.com/goplus/gogen/verif/internal/gen"
 	"github.com/goplus/gogen/verif/internal/h"
 	"github.com/goplus/gogen/verif/internal/ref"
 )
@@ -32,11 +33,28 @@ func c18Universe(slot int) *ref.Universe {
 	return c18Universes[slot]
 }
 
+// Case layout: the first c18Sweeps(tier) cases are "sweep" rounds, the rest are "mixed" rounds.
+//   sweep: for every program of a list (a chunk of the corpus plus a stratified sample of catalogue atoms, valid and
+//          invalid) 4-8 goroutines build that SAME program at the same moment, each with its own importer, twice. Any
+//          package-level state the program's code path writes is then written by several goroutines with nothing
+//          ordering them. (A first version let each goroutine run through the list in a different rotation; the
+//          sync.Pools inside fmt and the printer order builds that are far apart in time, so the race detector stayed
+//          silent on a seeded shared scratch slice. Lock step does not depend on that.)
+//   mixed: every goroutine builds a different program (the original workload).
+const c18CorpusChunks = 8
+
+func c18Sweeps(tier string) int {
+	if tier == "thorough" {
+		return 3*c18CorpusChunks + 120
+	}
+	return c18CorpusChunks
+}
+
 func c18N(tier string) int {
 	if tier == "thorough" {
-		return 320
+		return c18Sweeps(tier) + 240
 	}
-	return 32
+	return c18Sweeps(tier) + 24
 }
 
 type c18Event struct {
@@ -45,7 +63,147 @@ type c18Event struct {
 	t0, t1 int64
 }
 
+type c18Item struct {
+	key string
+	src []string
+	opt drive.Opt
+}
+
+var (
+	c18AtomOnce sync.Once
+	c18AllAtoms []gen.Atom
+)
+
+// c18SweepList is the program list of sweep round i.
+func c18SweepList(tier string, seed uint64, i int) []c18Item {
+	var items []c18Item
+	nAtoms := 40
+	if i < 3*c18CorpusChunks {
+		all := Corpus()
+		chunk := i % c18CorpusChunks
+		for k, c := range all {
+			if k%c18CorpusChunks == chunk {
+				items = append(items, c18Item{key: "corpus " + c.Name, src: []string{c.Src}})
+			}
+		}
+	} else {
+		nAtoms = 250
+	}
+	c18AtomOnce.Do(func() {
+		for _, c := range []string{"operator", "shift", "conv", "assign", "compare", "builtin", "access"} {
+			c18AllAtoms = append(c18AllAtoms, catalogues()[c]...)
+		}
+	})
+	r := h.NewRand(seed, 1801, uint64(i))
+	pick := h.Sample(len(c18AllAtoms), func(k int) string { return c18AllAtoms[k].Strat }, 1, h.Mix(seed, uint64(i)))
+	perm := r.Perm(len(pick))
+	shuffled := make([]int, len(pick))
+	for a, b := range perm {
+		shuffled[a] = pick[b]
+	}
+	pick = shuffled
+	if len(pick) > nAtoms {
+		pick = pick[:nAtoms]
+	}
+	for _, k := range pick {
+		a := c18AllAtoms[k]
+		cfg := []string{"default", "default", "xgo", "bare"}[r.Intn(4)]
+		items = append(items, c18Item{key: "[" + cfg + "] " + a.Text(), src: []string{a.Program()}, opt: cfgOpt(cfg)})
+	}
+	return items
+}
+
+// c18FullFP fingerprints everything the monitors observe of one build: status, message, bytes, and the type /
+// constant / declaration disagreements with go/types (so a wrong folded constant shows even when the text is unchanged).
+func c18FullFP(o *drive.Outcome) string {
+	if o.Status != "accepted" {
+		return "status:" + o.Status + ":" + normMsg(o.Msg)
+	}
+	return hashFiles(o) + fmt.Sprintf(" out-errs=%d type-diffs=%v cval-diffs=%v decl-diffs=%v dump-diffs=%d", len(o.OutErrs), o.TypeDiffs, o.CValDiffs, o.DeclDiffs, len(o.DumpDiffs))
+}
+
+func c18Sweep(tier string, seed uint64, i int) []h.Result {
+	r := h.NewRand(seed, 1802, uint64(i))
+	G := []int{4, 4, 6, 8}[r.Intn(4)]
+	procs := []int{8, 16}[r.Intn(2)] // at least one P per goroutine: fewer accidental happens-before edges through per-P sync.Pools (fmt, printer)
+	old := runtime.GOMAXPROCS(procs)
+	defer runtime.GOMAXPROCS(old)
+	items := c18SweepList(tier, seed, i)
+	const reps = 2
+	res := h.Result{Key: fmt.Sprintf("sweep seed=%d case=%d goroutines=%d GOMAXPROCS=%d programs=%d", seed, i, G, procs, len(items)), Verdict: h.Held}
+	us := make([]*ref.Universe, G)
+	for g := range us {
+		us[g] = c18Universe(g)
+	}
+	var diffs []string
+	overlaps, steps := 0, 0
+	var clock atomic.Int64
+	for k, it := range items {
+		base := c18FullFP(drive.Build(us[0], it.src, it.opt))
+		for rep := 0; rep < reps; rep++ {
+			// lock step: all goroutines build program k at the same moment, nothing synchronises them inside the build
+			got := make([]string, G)
+			crashes := make([]string, G)
+			t0s, t1s := make([]int64, G), make([]int64, G)
+			var wg sync.WaitGroup
+			start := make(chan struct{})
+			for g := 0; g < G; g++ {
+				wg.Add(1)
+				go func(g int) {
+					defer wg.Done()
+					defer func() {
+						if e := recover(); e != nil {
+							crashes[g] = fmt.Sprint(e)
+						}
+					}()
+					<-start
+					t0s[g] = clock.Add(1)
+					o := drive.Build(us[g], it.src, it.opt)
+					t1s[g] = clock.Add(1)
+					got[g] = c18FullFP(o)
+				}(g)
+			}
+			close(start)
+			wg.Wait()
+			steps++
+			for a := 0; a < G; a++ {
+				for b := a + 1; b < G; b++ {
+					if t0s[a] < t1s[b] && t0s[b] < t1s[a] {
+						overlaps++
+					}
+				}
+			}
+			for g := 0; g < G; g++ {
+				if crashes[g] != "" {
+					diffs = append(diffs, fmt.Sprintf("program %d (%s) goroutine %d panicked outside the build: %s", k, it.key, g, crashes[g]))
+				} else if got[g] != base {
+					diffs = append(diffs, fmt.Sprintf("program %d (%s) goroutine %d: concurrent %s, sequential %s", k, it.key, g, got[g], base))
+				}
+			}
+		}
+	}
+	res.Count("concurrent_builds", int64(G*steps))
+	res.Count("sweep_programs", int64(len(items)))
+	res.Count("lockstep_steps", int64(steps))
+	res.Count("overlapping_build_pairs", int64(overlaps))
+	res.NonTrivial = overlaps > 0
+	if len(diffs) > 0 {
+		sort.Strings(diffs)
+		if len(diffs) > 12 {
+			diffs = append(diffs[:12], fmt.Sprintf("... and %d more", len(diffs)-12))
+		}
+		res.Verdict, res.Kind = h.Violated, "concurrent-output-differs"
+		res.Detail = strings.Join(diffs, "\n")
+	} else {
+		res.Detail = fmt.Sprintf("%d programs, each built %d times by %d goroutines in lock step (%d overlapping build pairs); every outcome (bytes, types, constants) equals the sequential one", len(items), reps, G, overlaps)
+	}
+	return []h.Result{res}
+}
+
 func c18Run(tier string, seed uint64, i int) []h.Result {
+	if i < c18Sweeps(tier) {
+		return c18Sweep(tier, seed, i)
+	}
 	r := h.NewRand(seed, 18, uint64(i))
 	G := []int{2, 4, 8, 8, 12}[r.Intn(5)]
 	procs := []int{2, 4, 16}[r.Intn(3)]
@@ -55,7 +213,7 @@ func c18Run(tier string, seed uint64, i int) []h.Result {
 	progs := make([]c15Prog, G)
 	opts := make([]drive.Opt, G)
 	for g := 0; g < G; g++ {
-		progs[g] = c15Program(seed, i*16+g)
+		progs[g] = c15SrcProgram(seed, i*16+g)
 		opts[g] = drive.Opt{NoCompare: true, FileNames: progs[g].names, PkgPath: progs[g].path}
 		if r.Chance(20) && progs[g].path == "" {
 			opts[g].XGo = true
@@ -144,7 +302,7 @@ func c18FP(o *drive.Outcome) string {
 func init() {
 	h.Register(&h.Check{
 		ID: "C18", Level: "exploration", Race: true, Workers: 4, CPULimit: 900,
-		Rule: "rounds of 2-12 goroutines (GOMAXPROCS 2/4/16), each building a DIFFERENT program with its own Package, Config, operand stack and importer instance (one importer per goroutine slot; std packages type-checked from source per importer), " +
+		Rule: "SWEEP rounds: for every program of a list (one eighth of the 269-program corpus plus 40 stratified catalogue atoms, valid and invalid, in the default/XGo/bare configurations; thorough adds 120 rounds of 250 atoms) 4-8 goroutines build that SAME program in lock step, twice, each with its own importer and nothing synchronising them inside the build, so every package-level variable the program's code path writes is written by several goroutines at once; outcome fingerprint = bytes + type/constant/declaration disagreements with go/types. MIXED rounds: rounds of 2-12 goroutines (GOMAXPROCS 2/4/16), each building a DIFFERENT program with its own Package, Config, operand stack and importer instance (one importer per goroutine slot; std packages type-checked from source per importer), " +
 			"runtime.Gosched() injected after seed-chosen builder operations (the real suspension points between builder calls); programs: extension-package libraries with overload families, generated single- and multi-file programs, corpus programs " +
 			"(enumerator loops, overloads, big-number literals, unsafe, generics), in the default, XGo-builtin and bare configurations. Oracles: (1) Go race detector — every report in the workers' race logs is a violation, de-duplicated by the pair of top frames; " +
 			"(2) each package's bytes under concurrent build equal its sequential build. non-trivial = round with at least one pair of overlapping builds (logical clock); distinct by round",
